@@ -282,7 +282,9 @@ def install(E):
     def vf_watch_shared_state(E, st, fr, ins, a):
         # from here on, a store to a process-wide mutable object of the library without a lock held is a
         # lock-discipline violation (the harness' own globals are exempt)
-        st.user["watch_globals"] = bool(a[0])
+        if E.watch_enabled:
+            st.user["watch_globals"] = bool(a[0])
+            E.res.watch_regions = getattr(E.res, "watch_regions", 0) + (1 if a[0] else 0)
         return None
 
     @reg("vf_locks_held")
